@@ -137,7 +137,12 @@ Lemma xyz_ranges : exists rgs, prepare_ranges pc = Ok rgs.
 Proof.
   unfold prepare_ranges. rewrite (xyz_channel ChRed), (xyz_channel ChGreen), (xyz_channel ChBlue) by discriminate.
   destruct Hpc as (Hp & _ & _ & Hi). unfold channel_of, chan_limits, find_record. rewrite Hp, Hi.
-  vm_compute. eexists. reflexivity.
+  cbn [find xyz_proto name_eqb r_name chan_name option_map fst snd].
+  change (range_of_channel (mkChannel None None None)) with (@Ok (option range) None).
+  cbn [res_bind].
+  assert (Hok : is_ok (range_of_channel u8_channel) = true) by (vm_compute; reflexivity).
+  destruct (range_of_channel u8_channel) as [rg|e|]; try discriminate Hok.
+  cbn [res_bind]. eexists. reflexivity.
 Qed.
 
 Lemma xyz_index_records : index_records_are_integers pc = true.
